@@ -267,7 +267,13 @@ def r4_remove_on_read(ctx):
         okk = bool(ko) and all(o.kind == "param" and o.detail == 1 for o in ko)
         ro = T.return_origins(b)
         okr = bool(ro) and all(o.kind == "call" and (o.term is rem[0] or o.term.callee == "std::option::Option::<T>::map") for o in ro)
-        if okk:
+        # ... and the table is consulted on every call: no answer is given before the lookup (a shortcut that decides
+        # "nothing pending" from other state answers NULL for an id that is in the table)
+        cfg = cfg_of(b)
+        bypass = set(cfg.reachable(cfg.entry, cut_nodes=[rem[0].bb])) & set(cfg.return_blocks())
+        if okk and bypass:
+            out.append(violated("C16.R4", "pathrs_errorinfo:remove", rem[0].where(), "pathrs_errorinfo can return without looking the id up in the table (a path from the entry to a return avoids HashMap::remove)"))
+        elif okk:
             out.append(holds("C16.R4", "pathrs_errorinfo:remove", rem[0].where(), "HashMap::remove(err_id) under the lock; absent id -> None"))
         else:
             out.append(violated("C16.R4", "pathrs_errorinfo:remove", rem[0].where(), "remove() key is not the err_id parameter"))
@@ -501,6 +507,33 @@ def r8_errno_is_the_failing_calls(ctx):
     return out
 
 
+def r9_description_is_captured(ctx):
+    """'a description of exactly that failure': everything an error says about the failing call is captured when the
+    call fails.  Formatting an error later (pathrs_errorinfo builds the description then, possibly on another thread
+    and after descriptor numbers were reused) performs no system call and looks nothing up: no Display/Debug impl of
+    the error types reaches a system call."""
+    from .c10 import _may
+    F = ctx.facts
+    ms, _d = _may(ctx)
+    out = []
+    n = 0
+    for b in F.fn_bodies():
+        if not (b.file in ("src/syscalls.rs", "src/error.rs") or b.file.startswith("src/capi/error")):
+            continue
+        if not re.search(r" as std::fmt::(Display|Debug)>::fmt$", b.path):
+            continue
+        n += 1
+        direct = [t for t in b.calls() if os_entry_class(t) or RX_WRAPPER.search(t.callee or "") or (t.callee or "").startswith("utils::fd::FdExt::")]
+        if b.path in ms or direct:
+            out.append(violated("C16.R9", "%s:pure" % fn_key(b), b.where(), "formatting this error value may perform system calls (%s): the description is computed when it is printed, not when the call failed"
+                                % (sorted({t.callee for t in direct})[:3] or "through its callees")))
+        else:
+            out.append(holds("C16.R9", "%s:pure" % fn_key(b), b.where(), "prints captured data only"))
+    if n == 0:
+        out.append(violated("C16.R9", "fmt-impls", "", "no Display/Debug impls of the error types found (anchor drift)"))
+    return out
+
+
 RULES = [
     ("C16.R7", r7_invalid_arguments_are_einval, 5, True),
     ("C16.R1", r1_who_touches, 3, True),
@@ -510,4 +543,5 @@ RULES = [
     ("C16.R5", r5_all_failures_via_table, 18, True),
     ("C16.R6", r6_errno_table, 2, True),
     ("C16.R8", r8_errno_is_the_failing_calls, 1, True),
+    ("C16.R9", r9_description_is_captured, 3, True),
 ]
